@@ -1,4 +1,4 @@
-// Instrumented: slab_pool<Policy, MUTEX> for the six simulated policies. Included by one TU per mutex type.
+// Instrumented: slab_pool<Policy, MUTEX> for every simulated policy. Included by one TU per mutex type.
 #include <new>
 #include <type_traits>
 #include <utility>
@@ -17,57 +17,17 @@ struct PolA0 { // all defaults, aligned map
 	uintptr_t map(size_t len, size_t align) { return slabh_map(len, align); }
 	void unmap(uintptr_t b, size_t l) { slabh_unmap(b, l); }
 };
-struct PolA1 {
-	static constexpr size_t pagesize = 0x1000, slabsize = 0x4000, sb_size = 0x10000; static constexpr int num_buckets = 8;
-	uintptr_t map(size_t len, size_t align) { return slabh_map(len, align); }
-	void unmap(uintptr_t b, size_t l) { slabh_unmap(b, l); }
-	void poison(void *p, size_t n) { slabh_poison(0, p, n); }
-	void unpoison(void *p, size_t n) { slabh_poison(1, p, n); }
-	void unpoison_expand(void *p, size_t n) { slabh_poison(2, p, n); }
-};
-struct PolA2 {
-	static constexpr size_t pagesize = 0x1000, slabsize = 0x2000, sb_size = 0x2000; static constexpr int num_buckets = 6;
-	uintptr_t map(size_t len, size_t align) { return slabh_map(len, align); }
-	void unmap(uintptr_t b, size_t l) { slabh_unmap(b, l); }
-};
-struct PolU0 { // defaults, unaligned map, poison
+struct PolU0 { // all defaults, unaligned map, poison hooks
 	uintptr_t map(size_t len) { return slabh_map(len, 0); }
 	void unmap(uintptr_t b, size_t l) { slabh_unmap(b, l); }
 	void poison(void *p, size_t n) { slabh_poison(0, p, n); }
 	void unpoison(void *p, size_t n) { slabh_poison(1, p, n); }
 	void unpoison_expand(void *p, size_t n) { slabh_poison(2, p, n); }
 };
-struct PolU1 {
-	static constexpr size_t pagesize = 0x1000, slabsize = 0x4000, sb_size = 0x4000; static constexpr int num_buckets = 8;
-	uintptr_t map(size_t len) { return slabh_map(len, 0); }
-	void unmap(uintptr_t b, size_t l) { slabh_unmap(b, l); }
-};
-struct PolU2 {
-	static constexpr size_t pagesize = 0x4000, slabsize = 0x8000, sb_size = 0x10000; static constexpr int num_buckets = 7;
-	uintptr_t map(size_t len) { return slabh_map(len, 0); }
-	void unmap(uintptr_t b, size_t l) { slabh_unmap(b, l); }
-	void poison(void *p, size_t n) { slabh_poison(0, p, n); }
-	void unpoison(void *p, size_t n) { slabh_poison(1, p, n); }
-	void unpoison_expand(void *p, size_t n) { slabh_poison(2, p, n); }
-};
-
-struct PolA3 { // slab size that is not a power of two; classes up to 8192
-	static constexpr size_t pagesize = 0x1000, slabsize = 0x7000, sb_size = 0x8000; static constexpr int num_buckets = 11;
-	uintptr_t map(size_t len, size_t align) { return slabh_map(len, align); }
-	void unmap(uintptr_t b, size_t l) { slabh_unmap(b, l); }
-	void poison(void *p, size_t n) { slabh_poison(0, p, n); }
-	void unpoison(void *p, size_t n) { slabh_poison(1, p, n); }
-	void unpoison_expand(void *p, size_t n) { slabh_poison(2, p, n); }
-};
-struct PolU3 {
-	static constexpr size_t pagesize = 0x1000, slabsize = 0x7000, sb_size = 0x8000; static constexpr int num_buckets = 11;
-	uintptr_t map(size_t len) { return slabh_map(len, 0); }
-	void unmap(uintptr_t b, size_t l) { slabh_unmap(b, l); }
-};
-
-// generic parametrised policies (non-default geometry); POISON adds the poison hooks
+// parametrised geometries; the four shapes differ in which members exist (that is what slab.hpp detects)
+template <size_t PAGE, size_t SLAB, size_t SB, int NB, int AL, int PO> struct Pol;
 template <size_t PAGE, size_t SLAB, size_t SB, int NB>
-struct PolAlignedPoison {
+struct Pol<PAGE, SLAB, SB, NB, 1, 1> {
 	static constexpr size_t pagesize = PAGE, slabsize = SLAB, sb_size = SB; static constexpr int num_buckets = NB;
 	uintptr_t map(size_t len, size_t align) { return slabh_map(len, align); }
 	void unmap(uintptr_t b, size_t l) { slabh_unmap(b, l); }
@@ -76,19 +36,19 @@ struct PolAlignedPoison {
 	void unpoison_expand(void *p, size_t n) { slabh_poison(2, p, n); }
 };
 template <size_t PAGE, size_t SLAB, size_t SB, int NB>
-struct PolAligned {
+struct Pol<PAGE, SLAB, SB, NB, 1, 0> {
 	static constexpr size_t pagesize = PAGE, slabsize = SLAB, sb_size = SB; static constexpr int num_buckets = NB;
 	uintptr_t map(size_t len, size_t align) { return slabh_map(len, align); }
 	void unmap(uintptr_t b, size_t l) { slabh_unmap(b, l); }
 };
 template <size_t PAGE, size_t SLAB, size_t SB, int NB>
-struct PolUnaligned {
+struct Pol<PAGE, SLAB, SB, NB, 0, 0> {
 	static constexpr size_t pagesize = PAGE, slabsize = SLAB, sb_size = SB; static constexpr int num_buckets = NB;
 	uintptr_t map(size_t len) { return slabh_map(len, 0); }
 	void unmap(uintptr_t b, size_t l) { slabh_unmap(b, l); }
 };
 template <size_t PAGE, size_t SLAB, size_t SB, int NB>
-struct PolUnalignedPoison {
+struct Pol<PAGE, SLAB, SB, NB, 0, 1> {
 	static constexpr size_t pagesize = PAGE, slabsize = SLAB, sb_size = SB; static constexpr int num_buckets = NB;
 	uintptr_t map(size_t len) { return slabh_map(len, 0); }
 	void unmap(uintptr_t b, size_t l) { slabh_unmap(b, l); }
@@ -96,40 +56,38 @@ struct PolUnalignedPoison {
 	void unpoison(void *p, size_t n) { slabh_poison(1, p, n); }
 	void unpoison_expand(void *p, size_t n) { slabh_poison(2, p, n); }
 };
-using PolA4 = PolAlignedPoison<0x4000, 0x4000, 0x4000, 8>;
-using PolU4 = PolUnaligned<0x2000, 0x2000, 0x2000, 6>;
-using PolA5 = PolAligned<0x1000, 0x1000, 0x1000, 5>;
-using PolU5 = PolUnalignedPoison<0x1000, 0x3000, 0x10000, 9>;
+#define GEOM(tag, al, po, pg, sl, sb, nb) using Pol##tag = Pol<pg, sl, sb, nb, al, po>;
+#include GEOMS_INC
+#undef GEOM
 
 namespace {
-PolA3 pa3; PolU3 pu3; PolA4 pa4; PolU4 pu4; PolA5 pa5; PolU5 pu5;
-PolA0 pa0; PolA1 pa1; PolA2 pa2; PolU0 pu0; PolU1 pu1; PolU2 pu2;
+PolA0 pol_A0; PolU0 pol_U0;
+#define GEOM(tag, al, po, pg, sl, sb, nb) Pol##tag pol_##tag;
+#include GEOMS_INC
+#undef GEOM
 
-#define DISPATCH(pc, EXPR) \
-	switch (pc) { \
-	case PC_A0: { using P = PolA0; auto &plc = pa0; (void)plc; EXPR; break; } \
-	case PC_A1: { using P = PolA1; auto &plc = pa1; (void)plc; EXPR; break; } \
-	case PC_A2: { using P = PolA2; auto &plc = pa2; (void)plc; EXPR; break; } \
-	case PC_U0: { using P = PolU0; auto &plc = pu0; (void)plc; EXPR; break; } \
-	case PC_U1: { using P = PolU1; auto &plc = pu1; (void)plc; EXPR; break; } \
-	case PC_A3: { using P = PolA3; auto &plc = pa3; (void)plc; EXPR; break; } \
-	case PC_U3: { using P = PolU3; auto &plc = pu3; (void)plc; EXPR; break; } \
-	case PC_A4: { using P = PolA4; auto &plc = pa4; (void)plc; EXPR; break; } \
-	case PC_U4: { using P = PolU4; auto &plc = pu4; (void)plc; EXPR; break; } \
-	case PC_A5: { using P = PolA5; auto &plc = pa5; (void)plc; EXPR; break; } \
-	case PC_U5: { using P = PolU5; auto &plc = pu5; (void)plc; EXPR; break; } \
-	default: { using P = PolU2; auto &plc = pu2; (void)plc; EXPR; break; } }
+#define GEOM(tag, al, po, pg, sl, sb, nb) case PC_##tag: return fn.template operator()<Pol##tag>(pol_##tag);
+template <class F>
+auto dispatch(int pc, F fn) {
+	switch (pc) {
+	case PC_A0: return fn.template operator()<PolA0>(pol_A0);
+	case PC_U0: return fn.template operator()<PolU0>(pol_U0);
+#include GEOMS_INC
+	default: return fn.template operator()<PolA0>(pol_A0);
+	}
+}
+#undef GEOM
 
 template <class P> using Pool = frg::slab_pool<P, MUTEX>;
 
-size_t f_pool_size(int pc) { size_t r = 0; DISPATCH(pc, r = sizeof(Pool<P>)); return r; }
-void f_construct(int pc, void *mem) { DISPATCH(pc, new (mem) Pool<P>(plc)); }
-void *f_allocate(int pc, void *pool, size_t n) { void *r = nullptr; DISPATCH(pc, r = static_cast<Pool<P> *>(pool)->allocate(n)); return r; }
-void *f_realloc(int pc, void *pool, void *p, size_t n) { void *r = nullptr; DISPATCH(pc, r = static_cast<Pool<P> *>(pool)->realloc(p, n)); return r; }
-void f_free(int pc, void *pool, void *p) { DISPATCH(pc, static_cast<Pool<P> *>(pool)->free(p)); }
-void f_deallocate(int pc, void *pool, void *p, size_t n) { DISPATCH(pc, static_cast<Pool<P> *>(pool)->deallocate(p, n)); }
-size_t f_get_size(int pc, void *pool, void *p) { size_t r = 0; DISPATCH(pc, r = static_cast<Pool<P> *>(pool)->get_size(p)); return r; }
-size_t f_used_pages(int pc, void *pool) { size_t r = 0; DISPATCH(pc, r = static_cast<Pool<P> *>(pool)->numUsedPages()); return r; }
+size_t f_pool_size(int pc) { return dispatch(pc, []<class P>(P &) -> size_t { return sizeof(Pool<P>); }); }
+void f_construct(int pc, void *mem) { dispatch(pc, [&]<class P>(P &plc) -> int { new (mem) Pool<P>(plc); return 0; }); }
+void *f_allocate(int pc, void *pool, size_t n) { return dispatch(pc, [&]<class P>(P &) -> void * { return static_cast<Pool<P> *>(pool)->allocate(n); }); }
+void *f_realloc(int pc, void *pool, void *p, size_t n) { return dispatch(pc, [&]<class P>(P &) -> void * { return static_cast<Pool<P> *>(pool)->realloc(p, n); }); }
+void f_free(int pc, void *pool, void *p) { dispatch(pc, [&]<class P>(P &) -> int { static_cast<Pool<P> *>(pool)->free(p); return 0; }); }
+void f_deallocate(int pc, void *pool, void *p, size_t n) { dispatch(pc, [&]<class P>(P &) -> int { static_cast<Pool<P> *>(pool)->deallocate(p, n); return 0; }); }
+size_t f_get_size(int pc, void *pool, void *p) { return dispatch(pc, [&]<class P>(P &) -> size_t { return static_cast<Pool<P> *>(pool)->get_size(p); }); }
+size_t f_used_pages(int pc, void *pool) { return dispatch(pc, [&]<class P>(P &) -> size_t { return static_cast<Pool<P> *>(pool)->numUsedPages(); }); }
 } // namespace
 
 extern "C" const SlabApi API_NAME = {f_pool_size, f_construct, f_allocate, f_realloc, f_free, f_deallocate, f_get_size, f_used_pages};
